@@ -145,4 +145,41 @@ theorem transformOrder_flip_before_permute :
     Gen.affineTransformOrder.idxOf "flip_reference" < Gen.affineTransformOrder.idxOf "permute_reference" ∧
     Gen.affineTransformOrder.length = 4 := by decide
 
+
+/-! ## `create_rotation_matrix`: which element of `pixel_spacing` is which spacing, the positivity test -/
+
+/-- `createRotation` with the regenerated spacing rules: the pair is read at the regenerated indices (rows, columns), a scalar serves
+both, and the regenerated test decides refusal -/
+def createRotationSrc (o : Ori) (conv : List Char) (slicesFirst rightHanded : Bool) (ps : Spacing) (sbs : Rat) : Except ErrKind M3 := do
+  let cv ← normConvention conv
+  let (sr, sc) ← (match ps with
+    | .scalar s => pure (s, s)
+    | .seq l => if l.length = 2 then pure (l.getD Gen.rotationSpacingIndex.1 0, l.getD Gen.rotationSpacingIndex.2 0) else .error .value
+    : Except ErrKind (Rat × Rat))
+  if (match Gen.rotationSpacingRefused sr sc with | .ok b => b | .error _ => true) then .error .value
+  else do
+    let (v0, s0) ← axisOf o sr sc cv.1
+    let (v1, s1) ← axisOf o sr sc cv.2
+    let n := crossOrdered Gen.rotationCrossOrder rightHanded v0 v1
+    if slicesFirst == Gen.slicesFirstPutsNormalFirst then .ok ⟨V3.smul sbs n, V3.smul s0 v0, V3.smul s1 v1⟩
+    else .ok ⟨V3.smul s0 v0, V3.smul s1 v1, V3.smul sbs n⟩
+
+theorem createRotation_uses_source (o : Ori) (conv : List Char) (sf rh : Bool) (ps : Spacing) (sbs : Rat) :
+    createRotation o conv sf rh ps sbs = createRotationSrc o conv sf rh ps sbs := by
+  unfold createRotation createRotationSrc
+  cases normConvention conv with
+  | error e => rfl
+  | ok cv =>
+    have hz : ((0 : Rat) / 1) = 0 := by norm_num
+    cases ps with
+    | scalar s =>
+      simp only [bind, Except.bind, pure, Except.pure, Gen.rotationSpacingRefused, hz, Bool.or_eq_true, decide_eq_true_eq]
+    | seq l =>
+      rcases l with _ | ⟨a, _ | ⟨b, _ | ⟨c, t⟩⟩⟩
+      · rfl
+      · rfl
+      · simp only [bind, Except.bind, pure, Except.pure, Gen.rotationSpacingRefused, Gen.rotationSpacingIndex, hz, Bool.or_eq_true,
+          decide_eq_true_eq, List.length_cons, List.length_nil, if_true, List.getD_cons_zero, List.getD_cons_succ]
+      · simp [bind, Except.bind]
+
 end HdVerif.Affine
